@@ -710,7 +710,14 @@ def _run_group(plan, tape, res, hist, ctl, sim):
             res.stats['attempt.' + method] += 1
             if expected[0] == 'ok':
                 res.stats['progress.' + method] += 1
-            got = obj_outcome(obj.fit, sigs, fs, f_range, axis=axis, n_jobs=op['n_jobs'])
+            arm = None
+            if plan.get('faults', {}).get('interrupts') and tape.chance(1, 4, 'interrupt?'):
+                arm = 1 + tape.choose(600 if plan.get('granularity') == 'line' else 12, 'interrupt-at')
+            got = obj_outcome(obj.fit, sigs, fs, f_range, axis=axis, n_jobs=op['n_jobs'], arm=arm)
+            if got[0] == 'interrupted':
+                hist.append(('gfit', 'interrupted'))
+                cur = None
+                continue
             if got[0] == 'deadlock':
                 res.violate('no-return', 'deadlock', 'op %d (group fit) blocks forever: %s' % (n, got[1]))
                 break
